@@ -60,7 +60,7 @@ func RegisterTypeOf(v any) error {
 
 		fenc := func(value reflect.Value, b *lib.Buffer, _ *stateEncode) error {
 			v := value.Interface().(Marshaler)
-			buf := b.Extend(4)
+			b.Extend(4)
 			l := b.Len()
 			if err := v.MarshalEDF(b); err != nil {
 				return err
@@ -70,7 +70,8 @@ func RegisterTypeOf(v any) error {
 			if int64(lenBinary) > int64(math.MaxUint32-1) {
 				return ErrBinaryTooLong
 			}
-			binary.BigEndian.PutUint32(buf, uint32(lenBinary))
+			// MarshalEDF may have grown (reallocated) the buffer: address the length field in b.B
+			binary.BigEndian.PutUint32(b.B[l-4:l], uint32(lenBinary))
 			return nil
 		}
 		encoders.Store(tov, regEncoder(name, fenc))
